@@ -27,6 +27,14 @@ class SimInterrupt(BaseException):
     """Ctrl-C / uncaught exception delivered to a task: normal unwinding."""
 
 
+class RemoteTaskError(Exception):
+    """The code under test raised inside a forked worker process; `info` = (type, message, traceback)."""
+
+    def __init__(self, info):
+        super().__init__(info[0])
+        self.info = tuple(info)
+
+
 class Chooser:
     """All scheduling decisions of a run.
 
@@ -128,6 +136,8 @@ class Scheduler:
         self.faults_fired: list = []  # (what, group name, step, kind of the operation it preceded)
         self._park_forever = threading.Event()
         self.switches = 0
+        self.lockstate: dict = {}
+        self.remote_tag = None
         self.overlap = False  # two tasks of one phase were inside an operation at once
 
     # ------------------------------------------------------------------ set-up
@@ -162,6 +172,8 @@ class Scheduler:
             t.result = t.fn(*t.args)
         except SimInterrupt:
             t.exc = ("SimInterrupt", "", "")
+        except RemoteTaskError as e:
+            t.exc = e.info
         except BaseException as e:  # noqa: BLE001 - everything the code under test raises is data
             t.exc = (type(e).__name__, str(e)[:500], traceback.format_exc()[-4000:])
         finally:
@@ -309,6 +321,41 @@ class Scheduler:
         self._handoff(cur, nxt)
         cur.blocked_on = None
         self._after_resume(cur)
+
+    # ------------------------------------------------------------------ locks (state of SimLock)
+    def _lockstate(self, uid):
+        key = (self.current.group.gid, uid)
+        st = self.lockstate.get(key)
+        if st is None:
+            st = self.lockstate[key] = {"owner": None}
+        return key, st
+
+    def lock_acquire(self, uid, name, block=True):
+        self.point("lock.acquire", name)
+        cur = self.current
+        key, st = self._lockstate(uid)
+        if st["owner"] is not None:
+            if not block:
+                return False
+            if st["owner"] is cur:
+                self.count("self_deadlock")
+            while st["owner"] is not None:
+                self.block(("lock", name, key))
+        st["owner"] = cur
+        self.log.append((self.step, cur.name, "lock.acquired", name))
+        if self.on_point is not None:
+            self.on_point(self, cur, "lock.acquired", name)
+        return True
+
+    def lock_release(self, uid, name):
+        key, st = self._lockstate(uid)
+        if st["owner"] is None:
+            raise ValueError("semaphore or lock released too many times")
+        st["owner"] = None
+        for t in self.tasks:
+            if t.state == "blocked" and isinstance(t.blocked_on, tuple) and t.blocked_on[-1] == key:
+                t.state = "runnable"
+        self.point("lock.release", name)
 
     def join(self, tasks):
         self.point("join", "")
